@@ -20,3 +20,7 @@ package tcp
 //@
 //@ func (*listener).Listen$1
 //@   before call:SetOption#1 assert arg0 == mangos.OptionMaxRecvSize && arg1 == iface(l.maxRecvSize) && held(l.lock)
+//@
+//@ func (*dialer).Dial
+//@   before call:Dial#1 assert !held(d.lock)
+//@   before call:Wait#1 assert !held(d.lock)
